@@ -69,6 +69,15 @@ type vWorld struct {
 	depth    int
 	unsupp   string
 	exitWord uint64
+	maxSteps int
+	events   []VEvent
+}
+
+// VEvent is one listener notification emitted by compiled code.
+type VEvent struct {
+	Before bool
+	Fn     uint32
+	Vals   []uint64
 }
 
 func (w *vWorld) memBase() uint64 { return vMemBase0 + w.epoch*vMemEpoch }
@@ -142,11 +151,18 @@ func (w *vWorld) loadCtx(addr uint64, width uint64) (uint64, bool) {
 		case w.off.ImportedFunctionsBegin >= 0 && off >= w.off.ImportedFunctionsBegin &&
 			off < w.off.ImportedFunctionsBegin+wazevoapi.Offset(int(w.m.ImportFunctionCount)*wazevoapi.FunctionInstanceSize):
 			cell = vTagBase + 0x10000 + uint64(off-w.off.ImportedFunctionsBegin) // function instance slot tag
+		case w.off.BeforeListenerTrampolines1stElement >= 0 && off == w.off.BeforeListenerTrampolines1stElement:
+			cell = vTagBase + 0x30000 // address of the array of before-listener trampolines (one per type index)
+		case w.off.AfterListenerTrampolines1stElement >= 0 && off == w.off.AfterListenerTrampolines1stElement:
+			cell = vTagBase + 0x40000
 		default:
 			w.unsupported("module context field")
 			return 0, true
 		}
 		return (cell >> (8 * (d & 7))) & widthMask(width), true
+	}
+	if d := addr - (vTagBase + 0x30000); d < 0x20000 {
+		return addr, true // an element of a listener trampoline array: identified by its own address
 	}
 	if d := addr - vExecCtxBase; d < 4096 {
 		if wazevoapi.Offset(d&^7) == wazevoapi.ExecutionContextOffsetStackBottomPtr {
@@ -257,6 +273,7 @@ func (w *vWorld) call(idx int, args []vVal) (res []vVal, outcome int) {
 		return nil, vOutUnsupported
 	}
 	defer func() { w.depth-- }()
+tailcall:
 	f := w.funcs[idx]
 	b := f.b
 	env := map[ssa.ValueID]vVal{}
@@ -274,7 +291,7 @@ func (w *vWorld) call(idx int, args []vVal) (res []vVal, outcome int) {
 		params = nil
 		for in := blk.Root(); in != nil && next == nil; in = in.Next() {
 			w.steps++
-			if w.steps > 4000 {
+			if w.steps > 4000 || (w.maxSteps > 0 && w.steps > w.maxSteps) {
 				w.unsupported("step bound")
 				return nil, vOutUnsupported
 			}
@@ -642,7 +659,15 @@ func (w *vWorld) call(idx int, args []vVal) (res []vVal, outcome int) {
 						return nil, vOutTrap
 					}
 				default:
-					if tag >= 0x10000 && tag < 0x20000 {
+					if tag >= 0x30000 && tag < 0x50000 {
+						// listener trampoline: (execCtx, function index, values...)
+						ev := VEvent{Before: tag < 0x40000, Fn: uint32(get(cargs[1]).lo)}
+						for _, a := range cargs[2:] {
+							ev.Vals = append(ev.Vals, trunc(get(a).lo, typeBits(a.Type())))
+						}
+						w.events = append(w.events, ev)
+						w.epoch++
+					} else if tag >= 0x10000 && tag < 0x20000 {
 						// imported function: slot tag -> function index
 						idx := uint32((tag - 0x10000) / wazevoapi.FunctionInstanceSize)
 						hc := vHostCall{index: idx}
@@ -666,6 +691,21 @@ func (w *vWorld) call(idx int, args []vVal) (res []vVal, outcome int) {
 						return nil, vOutUnsupported
 					}
 				}
+			case ssa.OpcodeTailCallReturnCall:
+				ref, _, cargs := in.CallData()
+				fidx := uint32(ref)
+				if fidx < w.m.ImportFunctionCount {
+					w.unsupported("tail call of an imported function")
+					return nil, vOutUnsupported
+				}
+				var wa []vVal
+				for _, a := range cargs[2:] {
+					wa = append(wa, get(a))
+				}
+				// a proper tail call: the callee replaces this activation (no depth is consumed)
+				idx, args = int(fidx-w.m.ImportFunctionCount), wa
+				w.epoch++
+				goto tailcall
 			case ssa.OpcodeUndefined:
 				// nothing
 			default:
@@ -721,6 +761,7 @@ func (w *vWorld) Unsupported() string                        { return w.unsupp }
 func (w *vWorld) MarkUnsupported(s string)                   { w.unsupported(s) }
 func (w *vWorld) Global(i int) uint64                        { return w.globals[i].lo }
 func (w *vWorld) LoadExit() uint64                          { return w.exitWord }
+func (w *vWorld) SetClosed(code uint64)                     { w.closed = code }
 func (w *vWorld) Closed() bool                               { return w.closed != 0 }
 func (w *vWorld) ParamTypes(i int) []wasm.ValueType          { return w.funcs[i].typ.Params }
 func (w *vWorld) ResultTypes(i int) []wasm.ValueType         { return w.funcs[i].typ.Results }
